@@ -128,18 +128,24 @@ predicate:
 									{ $$ = ast.NewBinary(ast.BinaryStartsWith, $1, $4) }
 	| expr LIKE_REGEX_P STRING_P
 	{
-		var err error
-		$$, err = ast.NewRegex($1, $3, "")
+		regex, err := ast.NewRegex($1, $3, "")
 		if err != nil {
 			pathlex.Error(err.Error())
+			// Keep a node so that a following accessor has something to link to.
+			$$ = $1
+		} else {
+			$$ = regex
 		}
 	}
 	| expr LIKE_REGEX_P STRING_P FLAG_P STRING_P
 	{
-		var err error
-		$$, err = ast.NewRegex($1, $3, $5)
+		regex, err := ast.NewRegex($1, $3, $5)
 		if err != nil {
 			pathlex.Error(err.Error())
+			// Keep a node so that a following accessor has something to link to.
+			$$ = $1
+		} else {
+			$$ = regex
 		}
 	}
 	;
@@ -220,6 +226,8 @@ accessor_op:
 				$$ = ast.NewBinary(ast.BinaryDecimal, $4[0], $4[1])
 			default:
 				pathlex.Error("invalid input syntax: .decimal() can only have an optional precision[,scale]")
+				// Keep a node so that a following accessor has something to link to.
+				$$ = ast.NewBinary(ast.BinaryDecimal, nil, nil)
 			}
 		}
 	| '.' DATE_P '(' ')' { $$ = ast.NewUnary(ast.UnaryDate, nil) }
